@@ -188,6 +188,32 @@ def corpus(ctx, rng):
             at = gen.nucleic(seq, kind)
             jobs.append({"what": f"{'DNA' if kind == 'D' else 'RNA'} {seq} ff={ff}", "text": gen.pdb_text([at]), "args": [f"--ff={ff}"],
                          "truth": truth([at]), "strands": [{"chain": "N", "len": len(seq)}]})
+    # nucleic acids as deposited: the current names of the phosphate oxygens (OP1 / OP2); a 2'-hydroxyl oxygen missing from the
+    # input (rebuilt by the repair step - the residue is still a ribonucleotide); waters listed after the strand under the
+    # strand's chain identifier
+    for kind, seq, ff in (("D", "ATCGT", "AMBER"), ("R", "ACGU", "AMBER"), ("D", "TA", "CHARMM"), ("R", "GCA", "TYL06")):
+        at = [dict(a, name={"O1P": "OP1", "O2P": "OP2"}.get(a["name"], a["name"])) for a in gen.nucleic(seq, kind)]
+        jobs.append({"what": f"{'DNA' if kind == 'D' else 'RNA'} {seq} OP1/OP2 names ff={ff}", "text": gen.pdb_text([at]), "args": [f"--ff={ff}"],
+                     "truth": truth([at]), "strands": [{"chain": "N", "len": len(seq)}]})
+    for seq, drop, ff in (("ACGU", 2, "AMBER"), ("GA", 1, "TYL06"), ("CCA", 0, "CHARMM"), ("AG", 0, "AMBER")):
+        at = [a for a in gen.nucleic(seq, "R") if not (a["res_index"] == drop and a["name"] == "O2'")]
+        jobs.append({"what": f"RNA {seq} without O2' on nucleotide {drop + 1} ff={ff}", "text": gen.pdb_text([at]), "args": [f"--ff={ff}"],
+                     "truth": truth([at]), "strands": [{"chain": "N", "len": len(seq)}], "rna": True})
+    for kind, seq, ff in (("D", "ACGT", "AMBER"), ("R", "ACGU", "CHARMM"), ("D", "GC", "TYL06"), ("R", "UA", "AMBER")):
+        at = gen.nucleic(seq, kind) + gen.water((9.0, 4.0, 3.0), chain="N", resseq=50) + gen.water((-8.0, 5.0, 12.0), chain="N", resseq=51)
+        jobs.append({"what": f"{'DNA' if kind == 'D' else 'RNA'} {seq} + waters under the strand's chain id ff={ff}", "text": gen.pdb_text([at]),
+                     "args": [f"--ff={ff}"], "truth": truth([at]), "strands": [{"chain": "N", "len": len(seq)}]})
+    # amidated peptides (NH2 cap): the residue before the cap is not a C-terminus, whatever follows the cap under the same chain id
+    for seq, ff in ((["ALA", "THR"], "AMBER"), (["LYS", "GLY", "ASP"], "PARSE"), (["SER", "CYS", "GLU"], "CHARMM")):
+        pep = gen.peptide(seq, oxt=False)
+        cap = gen.cap_nh2(len(seq))
+        for tail in ([], gen.water((9.0, 4.0, 3.0), chain="A", resseq=60) + gen.water((-8.0, 5.0, 2.0), chain="A", resseq=61)):
+            tr = truth([pep + cap + tail])
+            for t in tr:
+                if t["cls"] == "aa":
+                    t["c"] = False
+            jobs.append({"what": f"{'-'.join(seq)}-NH2{' + waters after the cap' if tail else ''} ff={ff}", "text": gen.pdb_text([pep + cap + tail]),
+                         "args": [f"--ff={ff}"], "truth": tr, "strands": []})
     # multi-chain, numbering variations, waters, protein + DNA
     for k in range(3 if ctx.quick else 10):
         nch = rng.choice([2, 3])
